@@ -561,10 +561,20 @@ func (c *updater) buildBackendCors(d *backData) {
 }
 
 func (c *updater) buildBackendCustomConfig(d *backData) {
-	config := d.mapper.Get(ingtypes.BackConfigBackend)
-	lines := utils.LineToSlice(config.Value)
+	lines := c.allowedCustomConfig(d.mapper.Get(ingtypes.BackConfigBackend))
 	if len(lines) == 0 {
 		return
+	}
+	d.backend.CustomConfig = lines
+}
+
+// allowedCustomConfig returns the lines of a configuration snippet, or nil
+// if the snippet is empty or if it uses a keyword that was disabled via the
+// --disable-config-keywords command-line option.
+func (c *updater) allowedCustomConfig(config *ConfigValue) []string {
+	lines := utils.LineToSlice(config.Value)
+	if len(lines) == 0 {
+		return nil
 	}
 	source := "global config"
 	if config.Source != nil {
@@ -576,16 +586,16 @@ func (c *updater) buildBackendCustomConfig(d *backData) {
 		}
 		if keyword == "*" {
 			c.logger.Warn("skipping configuration snippet on %s: custom configuration is disabled", source)
-			return
+			return nil
 		}
 		for _, line := range lines {
 			if firstToken(line) == keyword {
 				c.logger.Warn("skipping configuration snippet on %s: keyword '%s' not allowed", source, keyword)
-				return
+				return nil
 			}
 		}
 	}
-	d.backend.CustomConfig = lines
+	return lines
 }
 
 // kindly provided by strings/strings.go
